@@ -16,6 +16,12 @@ NOT_DECIDED = ["bounds under user code that edits observations through get_mut_o
 ASSUMPTIONS = ["VecDeque / Vec / sort behave as documented", "rustc nightly MIR construction"]
 
 
+GALLERY_OPTS = ('visual_max_observations', 'visual_minimal_quality_collect', 'visual_minimal_own_area_percentage_collect',
+                'visual_minimal_area', 'visual_minimal_quality_use', 'visual_minimal_own_area_percentage_use',
+                'visual_min_votes', 'visual_minimal_track_length', 'visual_kind', 'positional_kind',
+                'positional_min_confidence')
+
+
 def run(ctx):
     _ownership(ctx)
     _wiring(ctx)
@@ -28,6 +34,13 @@ def run(ctx):
     ctx.floor('R13.3', M.rule_collect_gate(ctx, 'R13.3', 'R13.3u'), 11)
     ctx.rule('R13.4', 'wasted-track conversions copy histories in order and last entries via back()')
     ctx.floor('R13.4', M.rule_wasted_conversions(ctx, 'R13.4'), 17)
+    import wiring
+    ctx.rule('R13.7', 'the metric works with the configured bounds and thresholds themselves (builder hands '
+                      'visual_max_observations, collect thresholds ... over unchanged); observations carry the given quality')
+    n = wiring.identity_from_self(ctx, 'R13.7', 'trackers::visual_sort::metric::builder::VisualMetricBuilder::build',
+                                  'VisualMetricOptions', GALLERY_OPTS)
+    n += wiring.identity_ctor(ctx, 'R13.7', 'trackers::visual_sort::VisualSortObservation::new')
+    ctx.floor('R13.7', n, 8)
 
 
 def _wiring(ctx):
